@@ -12,6 +12,7 @@ import (
 	"fmt"
 	"go/ast"
 	"go/token"
+	"regexp"
 	"strconv"
 	"strings"
 	"unicode/utf8"
@@ -1066,16 +1067,39 @@ func renderShape(c *ex.Ctx) string {
 		extra = append(extra, "render not found")
 		return out()
 	}
+	// the loop variables may have any names: the outer one is canonicalised to p1, the one of a nested
+	// `for _, X := range vx.graphics…` to p2 (so that renaming them is silent)
+	outerVar := ""
 	loopBody := func(st ast.Stmt, over string) []ast.Stmt {
 		ls, ok := st.(*ast.LabeledStmt)
 		if !ok {
 			return nil
 		}
 		rs, ok := ls.Stmt.(*ast.RangeStmt)
-		if !ok || src(c, rs.X) != over || rs.Key == nil || src(c, rs.Key) != "_" || rs.Value == nil || src(c, rs.Value) != "p1" {
+		if !ok || src(c, rs.X) != over || rs.Key == nil || src(c, rs.Key) != "_" || rs.Value == nil {
 			return nil
 		}
+		id, ok := rs.Value.(*ast.Ident)
+		if !ok || id.Name == "_" {
+			return nil
+		}
+		outerVar = id.Name
 		return rs.Body.List
+	}
+	innerRe := regexp.MustCompile(`^for _, (\w+) := range vx\.graphics(Next|Last) \{`)
+	canon := func(t string) string {
+		inner := ""
+		if m := innerRe.FindStringSubmatch(t); m != nil {
+			inner = m[1]
+		}
+		const tmp1, tmp2 = "\x00P1\x00", "\x00P2\x00"
+		if outerVar != "" {
+			t = regexp.MustCompile(`\b`+regexp.QuoteMeta(outerVar)+`\b`).ReplaceAllString(t, tmp1)
+		}
+		if inner != "" {
+			t = regexp.MustCompile(`\b`+regexp.QuoteMeta(inner)+`\b`).ReplaceAllString(t, tmp2)
+		}
+		return strings.ReplaceAll(strings.ReplaceAll(t, tmp1, "p1"), tmp2, "p2")
 	}
 	on := false
 	for _, st := range fd.Body.List {
@@ -1101,7 +1125,7 @@ func renderShape(c *ex.Ctx) string {
 				{"delRest", "p1.deleteFn(vx.tw)"}}
 			k := 0
 			for _, bs := range body {
-				bt := src(c, bs)
+				bt := canon(src(c, bs))
 				found := false
 				for ; k < len(want); k++ {
 					if want[k].text == bt {
@@ -1127,7 +1151,7 @@ func renderShape(c *ex.Ctx) string {
 				{"writeRest", "p1.writeTo(vx.tw)"}}
 			k := 0
 			for _, bs := range body {
-				bt := src(c, bs)
+				bt := canon(src(c, bs))
 				found := false
 				for ; k < len(want); k++ {
 					if want[k].text == bt {
